@@ -150,6 +150,35 @@ PROPS = {
             "memory residency beyond 'an in-memory body has its declared length <= S'",
         ],
     },
+    "C04": {
+        "title": "Per-connection exchange integrity: one handler run and one response per request",
+        "design_ref": "DESIGN.md section 4 (C04)",
+        "technique": "Verus: the real handle_http_conn_once and handle_http_conn (handler future replaced by its output, rule D4) with ghost "
+                     "state inserted at the handler call sites (run counter, connection snapshot) and obligations at every run, at the "
+                     "drop-connection returns and at the end of the per-connection loop body, over the HttpConn method contracts of C05",
+        "level_text": "Deductive proof for every request, every threshold S and every handler (an arbitrary FnOnce(Request) -> Response): "
+                      "the handler is run once per request, or a second time exactly when its first answer was the instruction to fetch the "
+                      "body, and then with the fetched body (a file of the declared length within the handler's limit, no longer pending); a "
+                      "handler that asks to drop the connection yields no bytes for that request (at most the interim 100-continue that "
+                      "preceded a body it asked for); when the response is chosen nothing but a complete interim response has been written; "
+                      "the per-connection loop starts an exchange only on a connection with nothing unread and nothing owed, and reads another "
+                      "request only after an exchange that returned without error (every error, dropped connection, 4xx/5xx ends the loop; a "
+                      "5xx shuts the write side, C05).",
+        "level_note": "Partial: the clauses about a panicking handler (500), the blocking pool, and 'the client receives exactly the bytes of the "
+                      "responses the handler returned, in order' across several requests are outside the deductive part -- the first two live in "
+                      "src/lib.rs closures over safina's pool and catch_unwind, the last needs the serialiser (assumed as ser(resp, close) here) "
+                      "and the request reader (assumed, never writes). The bounded stand-in c04 (real server over loopback, 888 scripted "
+                      "connections incl. panics, pipelining, drops, fetched bodies) covers them with a stated bound and is labelled bounded.",
+        "verus": ["conn"],
+        "verus_thorough": [],
+        "kani": [],
+        "witness": ["c04"],
+        "assumptions": ["as C05", "the handler is modelled as a total function value of type F: FnOnce(Request) -> Response whose calls have no effect on the connection",
+                        "rule D4: `Fut: Future<Output = Response>` is replaced by Response (a future is its output; cancellation not modelled)"],
+        "not_covered": ["handler panic -> 500 (src/lib.rs, catch_unwind on the blocking pool) -- bounded stand-in c04 only",
+                        "byte-exact equality of the responses on the wire with the handler's responses over several requests -- bounded stand-in c04 only",
+                        "request order / body bytes as seen by the handler (framing: C01, bodies: C09)"],
+    },
     "C05": {
         "title": "Connection protocol-state contract",
         "design_ref": "DESIGN.md section 3 (C05)",
@@ -176,7 +205,7 @@ PROPS = {
             "assumed at Verus level: AsyncWriteCounter's AsyncWrite impl forwards to the inner writer and counts accepted bytes (poll_write discharged by Kani harness c05_counter_poll_write)",
             "#[derive(Structural)] is added to ReadState / WriteState / ResponseKind so that the derived == is read as structural equality",
         ],
-        "not_covered": ["kernel / peer-side observation of the bytes", "task cancellation at await points", "handle_http_conn / handle_http_conn_once (generic async handler closures)"],
+        "not_covered": ["kernel / peer-side observation of the bytes", "task cancellation at await points"],
     },
     "C08": {
         "title": "A failed response write never corrupts the connection",
@@ -351,7 +380,6 @@ PROPS = {
 }
 
 NOT_APPLICABLE = {
-    "C04": "quantifies over histories of invocations of an opaque generic async handler closure, the blocking pool and panics; a modular contract cannot count calls of F without instrumenting its call sites, and neither Verus nor Kani models the pool or unwinding (the 'closed after error / 5xx / unread body' clause is carried by C05 / C08)",
     "C10": "about destructor execution at scope exit, future cancellation and panic (Rust drop semantics + temp-file's Drop + the file system); no statement in /repo to attach an obligation to, and neither verifier models drop timing or the file system",
     "C11": "sender / writer interleavings are concurrency (bounded channel between threads); the encoder is write! + str::lines, outside both verifiers; the one contract-level fact -- EventReceiver can return Ok(0) for an event with empty data, which copy_chunked_async's contract reads as end of stream -- is recorded in C07's assumptions",
     "C12": "the slot pool is a channel mutated through &self from several tasks / threads and refilled in Drop; expressing it needs Verus' atomic-invariant machinery inside the real types, and Kani has no thread or channel support",
